@@ -39,25 +39,48 @@ NQ_BASE = 100000
 OFF_NQ = 24
 
 
-def _exe():
-    exe, msg = common.build_harness("c07_group", ["c07_group.c"], whitebox=True, extra=["-I" + common.VERIF + "/harness"])
-    if exe is None:
-        raise RuntimeError("harness build failed: " + msg)
-    return exe
+TAG = "c07p%d" % os.getpid()        # work files / binaries of concurrently running checks must not collide
+_EXE = {}
+
+
+def _exe(which="c07_group"):
+    if which not in _EXE:
+        exe, msg = common.build_harness("%s_%s" % (which, TAG), [which + ".c"], whitebox=True,
+                                        extra=["-I" + common.VERIF + "/harness"])
+        if exe is None:
+            raise RuntimeError("harness build failed: " + msg)
+        _EXE[which] = exe
+    return _EXE[which]
+
+
+def _cleanup():
+    for exe in _EXE.values():
+        try:
+            os.remove(exe)
+        except OSError:
+            pass
+    _EXE.clear()
+
+
+def run_unit(cmd, limit):
+    """run one harness; a wall-clock limit never decides by itself: on expiry the unit is run once more, alone, with 10x the
+    limit.  returns the finished process object (returncode 124 only if the generous limit expired too)"""
+    r = common.run(cmd, timeout=limit)
+    if r.returncode == 124:
+        r = common.run(cmd, timeout=10 * limit)
+    return r
 
 
 def run_harness(ctx, seed, rounds, permille, kind=-1):
-    r = common.run([_exe(), str(seed), str(rounds), str(permille), str(kind)], timeout=600)
+    r = run_unit([_exe(), str(seed), str(rounds), str(permille), str(kind)], 300)
     if r.returncode != 0:
         raise RuntimeError("harness failed rc=%s: %s" % (r.returncode, r.stderr[-1500:]))
     return r.stdout
 
 
 def run_early(variant):
-    exe, msg = common.build_harness("c07_early", ["c07_early.c"], whitebox=False)
-    if exe is None:
-        raise RuntimeError("harness build failed: " + msg)
-    r = common.run([exe, str(variant)], timeout=20)
+    """the deterministic witness; returns (EARLY flag or None, full output)"""
+    r = run_unit([_exe("c07_early"), str(variant)], 60)
     for l in r.stdout.splitlines():
         if l.startswith("EARLY"):
             return int(l.split()[2]), r.stdout
@@ -569,7 +592,7 @@ def coq_rounds(name, alltr, allfin, chunk_events=14000, workers=4, timeout=900, 
         chunks.append(cur)
 
     def one(arg):
-        ci, part, strict = arg
+        ci, part, strict = arg[:3]
         nums, combos = {}, {}
 
         def z(x):
@@ -600,8 +623,11 @@ def coq_rounds(name, alltr, allfin, chunk_events=14000, workers=4, timeout=900, 
         body = ["Definition %s : Z := %d." % (nm, x) for x, nm in nums.items()]
         body += ["Definition %s (a b : Z) := mkEv %d %d 0 %d %d a b %d." % (nm, kk[0], kk[1], kk[2], kk[3], kk[4])
                  for kk, nm in combos.items()]
+        limit = arg[3] if len(arg) > 3 else timeout
         ok, vals, raw = driver.coq_eval("%s_%d%s" % (name, ci, "" if strict else "r"), ["Word", "Conc", "Gen_group", "Group", "GroupR", "GroupR_inv"],
-                                        "\n".join(body + defs + calls) + "\n", timeout=timeout)
+                                        "\n".join(body + defs + calls) + "\n", timeout=limit)
+        if not ok and "TIMEOUT after" in raw and len(arg) <= 3:
+            return ("timeout", arg)       # a wall-clock limit never decides: evaluated again below, alone, with 10x the limit
         if not ok or len(vals) != 2 * len(part):
             raise RuntimeError("coq round evaluation failed: " + raw[-2500:])
         return [(key, driver.ints(vals[2 * k]), driver.ints(vals[2 * k + 1])) for k, key in enumerate(part)]
@@ -612,14 +638,22 @@ def coq_rounds(name, alltr, allfin, chunk_events=14000, workers=4, timeout=900, 
               "rounds_replayed_only_without_futex_result_check": 0, "rounds_not_replayed_incomplete_record": 0}
     mism, model_early = [], {}
     with ThreadPoolExecutor(max_workers=workers) as ex:
-        results = [x for part in ex.map(one, [(ci, part, True) for ci, part in enumerate(chunks)]) for x in part]
+        outs = list(ex.map(one, [(ci, part, True) for ci, part in enumerate(chunks)]))
+    results = []
+    for o in outs:
+        if isinstance(o, tuple) and o and o[0] == "timeout":
+            o = one(o[1] + (10 * timeout,))
+        results += o
     # rounds that do not replay with "a futex_wait that returned 0 was woken by the model" are tried again without that one
     # requirement (GroupR.kernel_ok): where a FUTEX_WAKE took effect between its note and the waker's next event is not recorded
     again = [key for key, conf, rp in results
              if key not in incomplete and all(conf[2 * j] == -1 and conf[2 * j + 1] == 1 for j in range(len(byround[key]))) and rp[1] != 0]
     relaxed = set()
     if again:
-        second = {key: (conf, rp) for key, conf, rp in one((0, again, False))}
+        o2 = one((0, again, False))
+        if isinstance(o2, tuple) and o2 and o2[0] == "timeout":
+            o2 = one(o2[1] + (10 * timeout,))
+        second = {key: (conf, rp) for key, conf, rp in o2}
         results = [(key, conf, second[key][1]) if key in second and second[key][1][1] == 0 else (key, conf, rp)
                    for key, conf, rp in results]
         relaxed = {key for key in second if second[key][1][1] == 0}
@@ -677,80 +711,168 @@ def coq_rounds(name, alltr, allfin, chunk_events=14000, workers=4, timeout=900, 
     return res, {"mismatches": mism[:10], "counts": counts, "model_early": model_early}
 
 
-def correspond(ctx):
-    nseeds, rounds = (3, 36) if ctx.tier == "quick" else (24, 60)
-    fails, mism, alltr, total, notes, allfin, allinc = [], [], [], {}, [], {}, set()
-    # fixed corpus first: the deterministic witness of the notify-early defect found on the unchanged tree
-    for v in (0, 1):
-        early, out = run_early(v)
-        total["corpus_notify_early_variant%d" % v] = -1 if early is None else early
-        if early is None:
-            # the witness program waits for the leave's 64-bit add on dg_state; a library that no longer performs it hangs here
-            fails.append({"key": "corpus:c07_early-variant%d-no-verdict" % v, "label": "corpus", "variant": v,
-                          "what": "harness/c07_early.c variant %d did not finish: dispatch_group_leave no longer performs the "
-                                  "64-bit atomic add on dg_state the schedule waits for, or a call blocked (%s)" % (v, out[:200])})
-        elif early:
-            fails.append({"key": "notify-early", "label": "corpus", "variant": v,
-                          "what": "deterministic schedule (harness/c07_early.c variant %d): a notification registered after a new "
-                                  "dispatch_group_enter ran while that enter was still outstanding, because the dispatch_group_leave "
-                                  "of the previous generation was between its atomic add and its snapshot of the notify list" % v})
-    for i in range(nseeds):
-        seed = ctx.seed * 1000 + i
-        permille = [0, 150, 400][i % 3]
-        try:
-            text = run_harness(ctx, seed, rounds, permille)
-        except RuntimeError as ex:
-            # the stress client died (a trap inside the library, DISPATCH_CLIENT_CRASH / DISPATCH_INTERNAL_CRASH): a failing input
-            fails.append({"key": "seed%d:harness-died" % seed, "label": "seed%d" % seed, "round": -1,
-                          "what": "the stress client did not survive the run (seed %d, %d rounds, perturbation %d permille): %s"
-                                  % (seed, rounds, permille, str(ex)[:200])})
-            continue
-        f, tr, st, was_stuck, fin = analyse(text, "seed%d" % seed)
+def fail_kind(key):
+    for k in ("stuck", "notify-left-behind", "notify-multi", "notify-early", "wait-zero-unsound", "wait-nonzero-early",
+              "wait-nonzero-empty", "harness-died", "no-verdict"):
+        if k in key:
+            return k
+    return key
+
+
+def judge(ctx, runs, period, name):
+    """runs: list of dict(label, key, text, params, requested).  The whole judgement of recorded runs: stamp oracle, trace
+    conformance and global replay in Coq, known/unknown decision for early notifications, floors.
+    returns dict(fails, mism, total, alltr)"""
+    fails, mism, alltr, total, allfin, allinc, byrun = [], [], [], {}, {}, set(), {}
+    key_of = {}
+    for run in runs:
+        label, key, text = run["label"], run["key"], run["text"]
+        key_of[label] = key
+        f, tr, st, was_stuck, fin = analyse(text, label)
+        nE = text.count("\nE ")
+        seen = st.get("rounds", 0)
+        # floors (no silent pass): an empty or truncated dump is a broken tie
+        if nE == 0 or not tr:
+            mism.append({"what": "the recorder dump of a run is empty (%d event lines, %d thread traces): nothing was measured"
+                                 % (nE, len(tr)), "kind": "floor", "params": run["params"], "detail": {"label": label}})
+        elif seen < run["requested"] and not was_stuck:
+            mism.append({"what": "the run recorded %d of the %d rounds requested and did not end in the watchdog: truncated output"
+                                 % (seen, run["requested"]), "kind": "floor", "params": run["params"], "detail": {"label": label}})
+        for x in f:
+            x["params"] = run["params"]
         fails += f
-        alltr += [(sv, t, rd, thr, seed) for (sv, t, rd, thr) in tr]
+        alltr += [(sv, t, rd, thr, key) for (sv, t, rd, thr) in tr]
         for rd in fin.pop("incomplete", ()):
-            allinc.add((seed, rd))
+            allinc.add((key, rd))
         for rd, v in fin.items():
-            allfin[(seed, rd)] = v
+            allfin[(key, rd)] = v
         for k, v in st.items():
             total[k] = total.get(k, 0) + v
+        byrun[key] = run
     # a trace longer than this cannot come from the scripts of the harness (a thread spinning inside the library): it is
     # reported as a mismatch instead of being fed to Coq
     LIMIT = 6000
     toolong = [x for x in alltr if len(x[1]) > LIMIT]
     alltr = [x for x in alltr if len(x[1]) <= LIMIT]
-    for (sv, t, rd, thr, seed) in toolong[:5]:
+    for (sv, t, rd, thr, key) in toolong[:5]:
         mism.append({"what": "a recorded thread trace has %d events inside one round (a thread spinning inside the library)" % len(t),
-                     "detail": {"seed": seed, "round": rd, "thread": thr, "trace_tail": [e.brief() for e in t[-12:]]}})
-    inv_period = INV_PERIOD if ctx.tier == "quick" else 100
-    res, rep = coq_rounds("c07_rounds", alltr, allfin, period=inv_period, incomplete=allinc)
-    for (i, idle), (sv, t, rd, thr, seed) in zip(res, alltr):
+                     "kind": "trace-rejected", "params": byrun[key]["params"],
+                     "detail": {"seed": key, "round": rd, "thread": thr, "trace_tail": [e.brief() for e in t[-12:]]}})
+    if not alltr:
+        return {"fails": fails, "mism": mism, "total": total, "alltr": alltr}
+    res, rep = coq_rounds(name, alltr, allfin, period=period, incomplete=allinc)
+    if len(res) != len(alltr) or any(x is None for x in res):
+        raise RuntimeError("conformance results missing: %d traces, %d results" % (len(alltr), len([x for x in res if x is not None])))
+    for (i, idle), (sv, t, rd, thr, key) in zip(res, alltr):
         # a trace that is accepted but does not end outside every call is a mismatch only when the round was recorded
         # completely (the harness dumps a round after its record barrier; a watchdog dump has threads inside calls by design)
-        if i != -1 or (idle != 1 and (seed, rd) not in allinc):
+        if i != -1 or (idle != 1 and (key, rd) not in allinc):
             lo = max(0, i - 12) if i >= 0 else max(0, len(t) - 20)
             mism.append({"what": "a recorded thread trace of the library is not accepted by the model's thread automaton "
                                  "(Group.tstep): the implementation took a step the model does not have",
-                         "detail": {"seed": seed, "round": rd, "thread": thr, "rejected_at": i, "ended_idle": idle,
+                         "kind": "trace-rejected", "params": byrun[key]["params"],
+                         "detail": {"seed": key, "round": rd, "thread": thr, "rejected_at": i, "ended_idle": idle,
                                     "trace_window": [e.brief() for e in t[lo:lo + 30]]}})
+    for m in rep["mismatches"]:
+        m["kind"] = "round-not-replayed"
+        m["params"] = byrun[m["detail"]["seed"]]["params"]
     mism += rep["mismatches"]
-    total.update(rep["counts"])
+    for k, v in rep["counts"].items():
+        total[k] = total.get(k, 0) + v
+    # floors on what the replay actually covered
+    nr = rep["counts"]["rounds_total"]
+    if rep["counts"]["rounds_replayed_on_global_model"] == 0 and not fails:
+        mism.append({"what": "none of the %d recorded rounds was replayed on the global model" % nr, "kind": "floor",
+                     "params": runs[0]["params"], "detail": rep["counts"]})
+    exc = rep["counts"]["rounds_not_replayed_incomplete_record"] - len([1 for r_ in runs if "STUCK" in r_["text"]])
+    if exc > max(1, nr // 100):
+        mism.append({"what": "%d of %d rounds were excused as incompletely recorded (record barrier gave up): more than load explains"
+                             % (exc, nr), "kind": "floor", "params": runs[0]["params"], "detail": rep["counts"]})
+    rel = rep["counts"]["rounds_replayed_only_without_futex_result_check"]
+    if rel > max(3, (3 * nr) // 100):
+        mism.append({"what": "%d of %d rounds replay only without the futex-result check: more than the unknown effect time of "
+                             "FUTEX_WAKE explains" % (rel, nr), "kind": "floor", "params": runs[0]["params"], "detail": rep["counts"]})
     # known or not: an early notification found by the stamp oracle is the known defect exactly when its round replays
     # completely on the global model and the model run itself submits that very notification (identified by its registration
     # event) while the count has not been zero since its registration.  No ticket comparison is involved: the replay respects
     # the exact order of the harness-level marks, so every model run agrees with the oracle on such a notification; an early
     # notification of a round that does not replay, or that the model does not produce, keeps its instance key.
-    total["notify_early_known_by_model_run"] = total["notify_early_not_reproduced_by_model"] = 0
+    total.setdefault("notify_early_known_by_model_run", 0)
+    total.setdefault("notify_early_not_reproduced_by_model", 0)
     for f in fails:
         if f.get("early_candidate"):
-            seed = int(f["label"].replace("seed", ""))
-            me = rep["model_early"].get((seed, f["round"]))
+            me = rep["model_early"].get((key_of[f["label"]], f["round"]))
             if me is not None and f.get("regthr") is not None and (f["regthr"] + 1, f["regrem"]) in me:
                 f["key"] = "notify-early"
                 total["notify_early_known_by_model_run"] += 1
             else:
                 f["replayed"] = me is not None
                 total["notify_early_not_reproduced_by_model"] += 1
+    return {"fails": fails, "mism": mism, "total": total, "alltr": alltr}
+
+
+def corpus_run(v):
+    """the deterministic witness of the notify-early defect, recorded like one round of the stress client"""
+    early, out = run_early(v)
+    params = {"corpus": v}
+    if early is None:
+        # the witness program waits for the leave's 64-bit add on dg_state; a library that no longer performs it hangs here
+        return early, None, [{"key": "corpus:c07_early-variant%d-no-verdict" % v, "label": "corpus%d" % v, "variant": v,
+                              "params": params,
+                              "what": "harness/c07_early.c variant %d did not finish: dispatch_group_leave no longer performs "
+                                      "the 64-bit atomic add on dg_state the schedule waits for, or a call blocked (%s)"
+                                      % (v, out[:200])}]
+    return early, {"label": "corpus%d" % v, "key": -1 - v, "text": out, "params": params, "requested": 1}, []
+
+
+def correspond(ctx):
+    try:
+        return _correspond(ctx)
+    finally:
+        _cleanup()
+
+
+def _correspond(ctx):
+    nseeds, rounds = (3, 36) if ctx.tier == "quick" else (24, 60)
+    inv_period = INV_PERIOD if ctx.tier == "quick" else 100
+    fails, runs, total, notes = [], [], {}, []
+    # fixed corpus first: the deterministic witness of the notify-early defect found on the unchanged tree.  It is recorded and
+    # judged like a stress round: the oracle must find B early AND the round must replay on the model with the model run
+    # submitting B early; only then it is the known finding (the EARLY token of the program is a statistic)
+    for v in (0, 1):
+        early, run, f = corpus_run(v)
+        total["corpus_notify_early_variant%d" % v] = -1 if early is None else early
+        fails += f
+        if run:
+            runs.append(run)
+    for i in range(nseeds):
+        seed = ctx.seed * 1000 + i
+        permille = [0, 150, 400][i % 3]
+        params = {"seed": seed, "rounds": rounds, "permille": permille, "period": inv_period}
+        try:
+            text = run_harness(ctx, seed, rounds, permille)
+        except RuntimeError as ex:
+            # the stress client died (a trap inside the library, DISPATCH_CLIENT_CRASH / DISPATCH_INTERNAL_CRASH): a failing input
+            fails.append({"key": "seed%d:harness-died" % seed, "label": "seed%d" % seed, "round": -1, "params": params,
+                          "what": "the stress client did not survive the run (seed %d, %d rounds, perturbation %d permille): %s"
+                                  % (seed, rounds, permille, str(ex)[:200])})
+            continue
+        runs.append({"label": "seed%d" % seed, "key": seed, "text": text, "params": params, "requested": rounds})
+    j = judge(ctx, runs, inv_period, "%s_rounds" % TAG)
+    fails += j["fails"]
+    mism, alltr = j["mism"], j["alltr"]
+    total.update(j["total"])
+    if not alltr:
+        mism.append({"what": "no thread trace was recorded at all: nothing was measured", "kind": "floor",
+                     "params": {"seed": ctx.seed * 1000, "rounds": rounds, "permille": 0, "period": inv_period}, "detail": {}})
+    # the corpus witness must be found by the oracle and explained by the model: otherwise the known-finding line would rest
+    # on the token alone
+    for v in (0, 1):
+        if total.get("corpus_notify_early_variant%d" % v) == 1 and \
+                not any(f["key"] == "notify-early" and f["label"] == "corpus%d" % v for f in fails):
+            mism.append({"what": "harness/c07_early.c variant %d reports EARLY 1 but the recorded run is not judged early by the "
+                                 "oracle or is not reproduced by the model run" % v, "kind": "corpus", "params": {"corpus": v},
+                         "detail": {"failures_of_that_run": [f["key"] for f in fails if f["label"] == "corpus%d" % v]}})
     distinct = len(set(tuple((e.e.kind, e.e.off, e.e.ok & 1) for e in t) for (_, t, _, _, _) in alltr))
     samples = [{"trace": [e.brief() for e in t][:60]} for (_, t, _, _, _) in alltr[:2]]
     slept = [x for x in alltr if any(e.e.kind == 32 for e in x[1])][:2]
@@ -765,31 +887,98 @@ def correspond(ctx):
                     "50us-5ms, FOREVER) on one group per round (round kinds: random mix; many simultaneous waiters with short "
                     "timeouts expiring while others keep waiting; notify and enter+notify racing the last leave), many generations "
                     "per round, schedule perturbation inside the library's atomic operations (0/15/40 percent of events), SIGUSR1 "
-                    "storms without SA_RESTART, a 10 s no-progress watchdog (every wait of the harness is bounded by lack of progress, not by elapsed time) and a record barrier at the end of every round (all leaves' atomic adds recorded, the group's internal reference count back to its creation value); every per-thread, per-round event trace on dg_state / "
-                    "dg_gen / dg_notify_head / dg_notify_tail and on the target queue's dq_items_tail recorded by the "
-                    "DISPATCH_VERIF hook (a run of NULL loads from dg_notify_head by one spinning thread written once) is replayed through Group.tstep inside Coq; API-level oracle on stamps: wait==0 needs a "
+                    "storms without SA_RESTART, a 10 s no-progress watchdog (every wait of the harness is bounded by lack of "
+                    "progress, not by elapsed time) and a record barrier at the end of every round (all leaves' atomic adds "
+                    "recorded, the group's internal reference count back to its creation value); every per-thread, per-round event "
+                    "trace on dg_state / dg_gen / dg_notify_head / dg_notify_tail and on the target queue's dq_items_tail recorded "
+                    "by the DISPATCH_VERIF hook (a run of NULL loads from dg_notify_head by one spinning thread written once) is "
+                    "replayed through Group.tstep inside Coq; every round is then executed on Group.gstep by GroupR.sched (trace "
+                    "inclusion in the global model: this executable replay plus the order search in this file are the tie; the "
+                    "theorem behind it only says that what the scheduler executes are model steps); GroupR_inv.inv_b is evaluated "
+                    "on every %d-th state and on the final one as a tripwire only (C07_inv_b_true proves it true on every reachable "
+                    "state, so it can only fail if proofs and model drift apart); API-level oracle on stamps: wait==0 needs a "
                     "moment in [call, return] where the count could be zero, wait!=0 needs the deadline reached by the library's "
-                    "clock and a moment where the count could be non-zero [global replay: every round is then executed on Group.gstep by GroupR.sched and the decidable clauses of Inv1/Inv2/Inv3 (GroupR_inv.inv_b) are evaluated on every 300-th state and on the final one], every notify block runs exactly once and not while an "
+                    "clock and a moment where the count could be non-zero, every notify block runs exactly once and not while an "
                     "enter that returned before the notify call provably had not started to leave, nothing blocked or unfired after "
-                    "quiescence; distinct = distinct shapes (kind, offset, outcome) of thread traces",
+                    "quiescence; floors: an empty or truncated dump, zero replayed rounds, more than 1%% excused rounds or more "
+                    "than 3%% rounds needing the replay without the futex-result check are mismatches; distinct = distinct "
+                    "shapes (kind, offset, outcome) of thread traces" % inv_period,
             "samples": samples, "distribution": total, "traces_validated_against_impl": len(alltr),
             "mismatches": mism[:20], "failures": uniq[:20], "notes": notes}
 
 
+def _rerun(ctx, params, name):
+    """re-execute one recorded input with its recorded parameters against the current build and judge it again"""
+    if "corpus" in params:
+        early, run, f = corpus_run(params["corpus"])
+        if run is None:
+            return f, []
+        j = judge(ctx, [run], INV_PERIOD, name)
+        return f + j["fails"], j["mism"]
+    try:
+        text = run_harness(ctx, params["seed"], params["rounds"], params["permille"])
+    except RuntimeError as ex:
+        return [{"key": "seed%d:harness-died" % params["seed"], "what": str(ex)[:300]}], []
+    j = judge(ctx, [{"label": "seed%d" % params["seed"], "key": params["seed"], "text": text, "params": params,
+                     "requested": params["rounds"]}], params.get("period", INV_PERIOD), name)
+    return j["fails"], j["mism"]
+
+
 def replay(ctx, obj):
+    """rc 1: a recorded failure / mismatch reproduces on the current build (re-executed with the recorded seed, round count,
+    perturbation and invariant period, judged again by the oracle, the automaton and the global replay; the schedule of a
+    stress run is not reproducible, so each input is run up to 3 times and kinds are compared, not rounds); rc 0: none
+    reproduces; rc 2: nothing could be executed (entries about proofs / translation / build)"""
+    try:
+        return _replay(ctx, obj)
+    finally:
+        _cleanup()
+
+
+def _replay(ctx, obj):
+    items = []
     for f in obj.get("failures", []):
-        print("recorded failure:", f.get("what"))
-        lab = f.get("label", "seed1")
-        if lab == "corpus":
-            early, out = run_early(f.get("variant", 0))
-            print("re-run of harness/c07_early.c variant %d: EARLY=%s\n%s" % (f.get("variant", 0), early, out))
-            continue
-        seed = int(lab.replace("seed", "")) if lab.startswith("seed") else 1
-        text = run_harness(ctx, seed, 36, [0, 150, 400][seed % 3])
-        f2, _, _, _, _ = analyse(text, lab)
-        print("re-run with seed %d: %d failures" % (seed, len(f2)))
-        for x in f2[:5]:
-            print("  ", x["what"])
+        items.append(("failure", fail_kind(f.get("key", "")), f.get("params"), f.get("what", "")))
+    not_executable = []
     for b in obj.get("broken", []):
-        print("no longer checks:", b)
-    return 1
+        d = b.get("detail")
+        if b.get("what") == "correspondence" and isinstance(d, dict) and d.get("params"):
+            items.append(("mismatch", d.get("kind", "mismatch"), d["params"], d.get("what", "")))
+        else:
+            not_executable.append(b)
+    for b in not_executable:
+        print("no longer checks (cannot be re-executed here; only a full ./check re-establishes it): %s: %s"
+              % (b.get("what"), str(b.get("detail"))[:600]))
+    if not items:
+        print("nothing in this replay file can be re-executed")
+        return 2
+    reproduced, executed, cache = 0, 0, {}
+    for n, (cls, kind, params, what) in enumerate(items):
+        print("recorded %s [%s]: %s" % (cls, kind, what[:300]))
+        if not params:
+            print("  no parameters recorded with this entry: cannot be re-executed")
+            continue
+        pk = tuple(sorted(params.items()))
+        hit = None
+        for attempt in range(3):
+            if (pk, attempt) not in cache:
+                cache[(pk, attempt)] = _rerun(ctx, params, "%s_replay%d_%d" % (TAG, n, attempt))
+            fails, mism = cache[(pk, attempt)]
+            executed += 1
+            if cls == "failure":
+                # an early notification in a replay file is an UNLISTED one: the known finding (key notify-early) is not the same
+                cand = [x for x in fails if fail_kind(x.get("key", "")) == kind and
+                        not (kind == "notify-early" and x.get("key") == "notify-early")]
+            else:
+                cand = [x for x in mism if x.get("kind") == kind]
+            if cand:
+                hit = cand[0]
+                break
+        if hit:
+            reproduced += 1
+            print("  REPRODUCES (%s, attempt %d): %s" % (params, attempt + 1, hit.get("what", "")[:300]))
+        else:
+            print("  does not reproduce (%s, 3 runs with the recorded parameters)" % (params,))
+    if executed == 0:
+        return 2
+    return 1 if reproduced else 0
